@@ -54,11 +54,11 @@ Qed.
 
 (** BOUNDED: on the complete enumerated list [small_c05] (ASTs with <= 3 nodes and up to two multipliers
     from {2,3} on nodes / {1,2,3} on branches, symbols {none,#}; and <= 4 nodes, multipliers 2 on nodes /
-    {2,3} on branches, at most one '='), outside the defect classes the model reads shorthand and
-    longhand as the SAME graph with the SAME numbering *)
+    {2,3} on branches, at most one '='), outside the defect classes, and when no multiplied unit contains a nested
+    branch, the model reads shorthand and longhand as the SAME graph with the SAME numbering *)
 Theorem C05_small : forallb (fun a => wf fo_none a && c05_ok a) small_c05 = true.
 Proof. exact C05_small_list. Qed.
-Theorem C05_small_not_vacuous : (500 <=? length (filter (fun a => Nat.eqb (class_C05 true a) 0) small_c05))%nat = true.
+Theorem C05_small_not_vacuous : (500 <=? length (filter (fun a => Nat.eqb (class_C05 true a) 0 && negb (nested_any a)) small_c05))%nat = true.
 Proof. exact C05_small_nonvacuous. Qed.
 
 Print Assumptions C05_small.
